@@ -657,6 +657,10 @@ func ZZVerifStore() {
 		ZZVerifC04()
 	case "C15":
 		ZZVerifC15()
+	case "C01":
+		ZZVerifC01Handlers()
+	case "C02":
+		ZZVerifC02Handlers()
 	case "C09":
 		ZZVerifC09Push()
 	default:
